@@ -128,6 +128,35 @@ def ser_stream(st, transform=None):
     return (ser(attrs, transform) + b"\nstream" + st.eol_after_keyword + data + st.eol_before_end + b"endstream")
 
 
+def png_predict(data, cols, types, bpp=1):
+    """PNG-filter `data` (rows of `cols` bytes); row i uses filter type types[i % len(types)] (0 None, 1 Sub, 2 Up,
+    3 Average, 4 Paeth).  Reference encoder written from the PNG specification, independent of pdfminer's decoder."""
+    out = bytearray()
+    above = bytes(cols)
+    for r, i in enumerate(range(0, len(data), cols)):
+        row = data[i:i + cols]
+        t = types[r % len(types)]
+        out.append(t)
+        for x in range(len(row)):
+            a = row[x - bpp] if x >= bpp else 0
+            b = above[x] if x < len(above) else 0
+            c = above[x - bpp] if x >= bpp else 0
+            if t == 0:
+                p = 0
+            elif t == 1:
+                p = a
+            elif t == 2:
+                p = b
+            elif t == 3:
+                p = (a + b) // 2
+            else:
+                pa, pb, pc = abs(b - c), abs(a - c), abs(a + b - 2 * c)
+                p = a if pa <= pb and pa <= pc else b if pb <= pc else c
+            out.append((row[x] - p) & 255)
+        above = row
+    return bytes(out)
+
+
 class Revision:
     def __init__(self, objects, form="table", objstm=(), free=(), eol=b"\n", root=None, info=None,
                  trailer_extra=None, gens=None, xref_w=(1, 4, 2), split_index=False, objstm_id=None, xref_id=None,
@@ -255,17 +284,13 @@ def build(revisions, header=b"%PDF-1.7\n%\xe2\xe3\xcf\xd3\n", transform_for=None
             d = {"Type": Name("XRef"), "Size": max(maxid, xid) + 1, "W": list(w),
                  "Index": [x for r in runs for x in r]}
             rows = bytes(rows)
-            if rev.xref_pack == "png":
-                # PNG `Up` prediction over rows of one entry each, the layout nearly every writer uses
+            if rev.xref_pack in ("png", "pngmix"):
+                # PNG prediction over rows of one entry each: all rows `Up` (what nearly every writer emits), or the row
+                # filter types mixed the way an optimising encoder chooses them (None followed by Up / Paeth / Average ...)
                 cols = sum(w)
-                pred = bytearray()
-                above = bytes(cols)
-                for i in range(0, len(rows), cols):
-                    row = rows[i:i + cols]
-                    pred += b"\x02" + bytes((x - y) & 255 for x, y in zip(row, above))
-                    above = row
-                rows = bytes(pred)
-                d["DecodeParms"] = {"Predictor": 12, "Columns": cols}
+                types = [2] if rev.xref_pack == "png" else [0, 2, 1, 0, 4, 3, 0, 3, 2, 4, 1]
+                rows = png_predict(rows, cols, types)
+                d["DecodeParms"] = {"Predictor": 12 if rev.xref_pack == "png" else 15, "Columns": cols}
             if rev.xref_pack != "none":
                 d["Filter"] = Name("FlateDecode")
                 rows = zlib.compress(rows)
